@@ -295,7 +295,18 @@ class Folder(object):
         if isinstance(e, ast.Call):
             return self._call(e, env, mod, cls)
         if isinstance(e, ast.JoinedStr):
-            return Sym(unparse(e))
+            parts = []
+            for v in e.values:
+                if isinstance(v, ast.Constant):
+                    parts.append(str(v.value))
+                elif isinstance(v, ast.FormattedValue) and v.format_spec is None and v.conversion == -1:
+                    x = self._eval(v.value, env, mod, cls)
+                    if is_sym(x) or not isinstance(x, (str, int)):
+                        return Sym(unparse(e))
+                    parts.append(str(x))
+                else:
+                    return Sym(unparse(e))
+            return "".join(parts)
         return Sym(unparse(e))
 
     def _comp_envs(self, gens, env, mod, cls):
